@@ -382,8 +382,8 @@ def dispatch(rec, case):
 
 def plan(tier, seed):
     n = 16
-    per = 2500 if tier == 'thorough' else 500
-    peru = 1200 if tier == 'thorough' else 300
+    per = 12000 if tier == 'thorough' else 500
+    peru = 4000 if tier == 'thorough' else 300
     return [{'seed': seed, 'shard': s, 'n': per, 'nu': peru}
             for s in range(n)]
 
